@@ -29,6 +29,16 @@ def x_jobs():
     for ind in INDICATORS:
         j.append(X("ind_stream_dispatch", {"kind": ind, "t": 3, "max_paths": 20000}, "%s (default configuration), 3 valid symbolic candles: result shape equals size(), two identically built instances agree, a clone taken before the last step continues identically, no panic on any feasible path" % ind, cost=15, timeout=1200,
                    encodes=["src/indicators/*.rs: %s::{init,next}" % ind, "src/core/indicator/result.rs", "src/helpers/methods.rs", "src/methods/*.rs"]))
+        if ind == "MoneyFlowIndex":
+            # typical price * volume makes the path conditions non-linear: 3 steps are decided on an idle machine only
+            j[-1].core = False
+            j[-1].tier = "t"
+            import copy
+            q = copy.copy(j[-1])
+            q.args = dict(q.args, t=2)
+            q.core, q.tier = True, "q"
+            q.bounds = q.bounds.replace("3 valid", "2 valid")
+            j.append(q)
     return j
 
 
